@@ -967,8 +967,17 @@ class TableIndex:
         self.G = cg.get(F)
         self.exact, self.loose = {}, {}
         for e in table:
-            self.exact.setdefault((normfn(e["fn"]), e["what"]), []).append(e)
-            self.loose.setdefault((stripfn(e["fn"]), e["what"]), []).append(e)
+            # a line written for a function that has since moved to another module (same item, other path) goes with it
+            path = e["fn"]
+            root = stripfn(path)
+            if not any(f.path == root for fs in F.by_crate.values() for f in fs):
+                for crate in F.by_crate:
+                    to = F.moved_to(crate, root)
+                    if to:
+                        path = to + path[len(root):]
+                        break
+            self.exact.setdefault((normfn(path), e["what"]), []).append(e)
+            self.loose.setdefault((stripfn(path), e["what"]), []).append(e)
 
     def lines(self, fn, what):
         out = list(self.exact.get((normfn(fn.path), what), []))
@@ -1142,7 +1151,8 @@ def _only_callers(allowed):
     def chk(F, s, e):
         G = cg.get(F)
         callers = sorted(F.fns[a].path for a, bs in G.edges.items() if s.fn.id in bs and a != s.fn.id)
-        bad = [c for c in callers if not any(c == a or c.startswith(a + "::{closure") for a in allowed)]
+        allowed_now = [F.moved_to(s.fn.crate, a) or a for a in allowed]
+        bad = [c for c in callers if not any(c == a or c.startswith(a + "::{closure") for a in allowed_now)]
         return (not bad), ("callers: %s" % callers if not bad else "unexpected callers %s" % bad)
     return chk
 
